@@ -58,6 +58,120 @@ def rows_spec(c, rng):
     return {'sampled': True, 'nrows': k, 'cols': cols}
 
 
+def _bitparallel(post, order, inputs_bits, mask):
+    """Values of all gates on many assignments at once (one Python integer per gate, one bit per assignment).
+    Only a SELECTOR of interesting rows: what it finds is handed to TLC, which does the judging."""
+    v = dict(inputs_bits)
+    for l in order:
+        if l in v:
+            continue
+        g = post['g'][l]
+        t, ops = g['t'], [v[o] for o in g['o']]
+        if t in ('AND', 'NAND'):
+            x = mask
+            for o in ops:
+                x &= o
+        elif t in ('OR', 'NOR'):
+            x = 0
+            for o in ops:
+                x |= o
+        elif t in ('XOR', 'NXOR'):
+            x = 0
+            for o in ops:
+                x ^= o
+        elif t in ('NOT', 'LNOT'):
+            x = ~ops[0]
+        elif t == 'RNOT':
+            x = ~ops[1]
+        elif t in ('IFF', 'LIFF'):
+            x = ops[0]
+        elif t == 'RIFF':
+            x = ops[1]
+        elif t == 'GT':
+            x = ops[0] & ~ops[1]
+        elif t == 'LT':
+            x = ~ops[0] & ops[1]
+        elif t == 'GEQ':
+            x = ops[0] | ~ops[1]
+        elif t == 'LEQ':
+            x = ~ops[0] | ops[1]
+        elif t == 'ALWAYS_TRUE':
+            x = mask
+        elif t == 'ALWAYS_FALSE':
+            x = 0
+        else:
+            raise KeyError(t)
+        if t in ('NAND', 'NOR', 'NXOR'):
+            x = ~x
+        v[l] = x & mask
+    return v
+
+
+def mine_rows(case, rng, m=4096, keep=6):
+    """Counterexample-guided choice of sampled rows: the recorded circuit is evaluated on m pseudo-random
+    assignments (sparse, uniform and dense) and up to `keep` assignments on which a recorded identity looks
+    violated replace the last sampled rows.  Purely a generator heuristic (role G): the verdict on those rows
+    is TLC's; an error here only means that no row is proposed."""
+    try:
+        post = case['post']
+        order = case.get('order') or topo_order(post)
+        if order is None or not case.get('sampled'):
+            return 0
+        mask = (1 << m) - 1
+        ins = list(post['i'])
+        blocks = 8
+        bw = m // blocks
+
+        def rnd(kind):
+            if kind == 0:
+                return rng.getrandbits(bw)
+            x = rng.getrandbits(bw)
+            for _ in range(abs(kind)):
+                y = rng.getrandbits(bw)
+                x = (x | y) if kind > 0 else (x & y)
+            return x
+        kinds = [0, 0, 1, 2, 4, -1, -2, -4]
+        bits = {}
+        for l in ins:
+            x = 0
+            for b, k in enumerate(kinds):
+                x |= rnd(k) << (b * bw)
+            bits[l] = x
+        v = _bitparallel(post, order, bits, mask)
+
+        def num(labels, r):
+            return sum(((v[l] >> r) & 1) << j for j, l in enumerate(labels))
+        bad = []
+        for r in range(m):
+            for k in case['checks']:
+                op = k['op']
+                if op == 'mul':
+                    ok = num(k['out'], r) == num(k['a'], r) * num(k['b'], r)
+                elif op == 'add':
+                    ok = num(k['out'], r) == num(k['a'], r) + (num(k['b'], r) << k['shift'])
+                elif op in ('wsum', 'wsum_multi'):
+                    ok = sum(((v[l] >> r) & 1) << w for w, l in k['outs']) == sum(((v[l] >> r) & 1) << w for w, l in k['ins'])
+                else:
+                    ok = True
+                if not ok:
+                    bad.append(r)
+                    break
+            if len(bad) >= keep:
+                break
+        nrows = case['nrows']
+        for j, r in enumerate(bad):
+            row = nrows - j
+            for l in ins:
+                cur = set(case['cols'][l])
+                cur.discard(row)
+                if (bits[l] >> r) & 1:
+                    cur.add(row)
+                case['cols'][l] = sorted(cur)
+        return len(bad)
+    except Exception:
+        return 0
+
+
 def topo_order(proj):
     done, order = set(), []
     pending = list(proj['ord'])
@@ -95,6 +209,8 @@ def finish(case, c, pre, rng, returned, checks, outmode, outlabels, basis='', bo
         order = topo_order(post)
         if order is not None:
             case['order'] = order
+    if case.get('sampled'):
+        case['mined_rows'] = mine_rows(case, rng)
     return case
 
 
@@ -125,3 +241,5 @@ def features(case):
         yield 'netlist-compared-with-algorithm-model'
     if 'ledger' in case:
         yield 'call-trace-validated-by-the-weight-ledger'
+    if case.get('mined_rows'):
+        yield 'sampled-rows-include-mined-counterexample-candidates'
